@@ -19,7 +19,7 @@ TECHNIQUE = (
 )
 RULE = (
     "case = 1-3 FASTA files with 1-40 (or 450-1300 small) records '>name description' (every third description holds a '>' itself), sequences of 0-200 residues "
-    "wrapped at a drawn width, with/without final newline, enzyme in {[KR], K, [FWY], [KR](?!P)}, reverse or shuffle, "
+    "wrapped at a drawn width, with/without final newline, enzyme in {[KR], K, [FWY], [KR](?!P), (?=K), (?=[DE])}, reverse or shuffle, "
     "concatenate on/off, numpy global seed, optionally repeated accessions or input entries that already carry the decoy prefix; every case is preceded by a call with the opposite mode (history), half of them writing to the very output path; in 3 of 7 cases the output path is one of the input files (decoys added in place). "
     "Non-trivial: >=1 protein with >=2 enzymatic peptides of interior length >=2. Distinct = distinct canonical JSON."
 )
@@ -29,7 +29,10 @@ ASSUMPTIONS = [
     "for look-ahead enzymes only names, length, composition, termini of the target's peptides and round trip are "
     "required (site equality is stated for residue-class enzymes)",
 ]
-ENZYMES = ["[KR]", "K", "[FWY]", "[KR](?!P)"]
+ENZYMES = ["[KR]", "K", "[FWY]", "[KR](?!P)",
+           # N-terminally cutting enzymes written as a pure look-ahead (Lys-N, Asp-N): a zero-width match at position 0 when the
+           # protein starts with the residue
+           "(?=K)", "(?=[DE])"]
 AA = "ACDEFGHIKLMNPQRSTVWY"
 
 
